@@ -318,6 +318,14 @@ class SymArray(np.ndarray):
                 for b in range(nb):
                     out[idx[:-1] + (idx[-1] * nb + b,)] = BVS(ir.bvextract(e.n, 8 * b + 7, 8 * b), np.uint8)
             return wrap(out, np.uint8)
+        if dt == np.complex128 and sd == np.float64 and self.ndim >= 1 and self.shape[-1] % 2 == 0:
+            # (re, im) pairs along the last axis, as NumPy's memory reinterpretation does
+            p = plain(self)
+            out = np.empty(p.shape[:-1] + (p.shape[-1] // 2,), dtype=object)
+            for idx in np.ndindex(*out.shape):
+                re_, im_ = S.as_sc(p[idx[:-1] + (2 * idx[-1],)]), S.as_sc(p[idx[:-1] + (2 * idx[-1] + 1,)])
+                out[idx] = SC(re_.re, im_.re)
+            return wrap(out, np.complex128)
         raise EngineError(f'view {sd} -> {dt} of a symbolic array')
 
     def byteswap(self, inplace=False):
